@@ -118,7 +118,10 @@ def param_diff(orig, loaded, saved=None):
 def make_case(prop, seed, i, tier):
     rng = rng_for(prop, seed, i)
     r = rng.random()
-    if r < 0.15:
+    if r > 0.92:
+        # beyond the usual sizes: long runs with late / long absence blocks, big teams, many components ...
+        spec = G.gen_scale(rng, rng.choice(["long", "long", "long", "many_resources", "many_components", "ff_chain", "one_component"]))
+    elif r < 0.15:
         from .p_forward import fixtures
         name = rng.choice(sorted(fixtures()))
         spec = G.perturb_fixture(rng, fixtures()[name])
@@ -158,8 +161,11 @@ def run_case(case):
         return res
     ref = strip_pert(B.dump(base.project))
     T = base.project.time
-    if case["tier"] == "thorough":
+    if case["tier"] == "thorough" and T <= 120:
         ks = list(range(0, T + 1))
+    elif case["tier"] == "thorough":
+        # long runs of the large models: the boundaries, every step of the first 40 and 60 random later ones
+        ks = sorted(set(list(range(0, 41)) + [T - 1, T] + [rng.randint(41, T) for _ in range(60)]))
     else:
         ks = sorted(set([0, 1, max(0, T - 1), T] + [rng.randint(0, max(0, T)) for _ in range(3)]))
     res["source"] = "pause-resume"
